@@ -675,6 +675,7 @@ class Daemon(object):
                 raise TypeError("objectId must be a string or None")
         else:
             objectId = "obj_" + uuid.uuid4().hex  # generate a new objectId
+        uri = self.uriFor(objectId)    # (first of all: an id that can't be part of a uri is refused before anything is registered)
         if inspect.isclass(obj_or_class):
             if weak: raise TypeError("Classes cannot be registered with weak=True.")
             if not hasattr(obj_or_class, "_pyroInstancing"):
@@ -706,7 +707,7 @@ class Daemon(object):
             weakref.finalize(obj_or_class, self._unregisterDeadWeakref, objectId, ref)
         else:
             self.objectsById[objectId] = obj_or_class
-        return self.uriFor(objectId)
+        return uri
 
     def _registeredObject(self, objectId):
         """the object or class currently registered under the id (None if there is none, or it was weak and is gone)"""
